@@ -56,4 +56,16 @@ check('helper kept', emitted['pct'][0].startswith('def pct'))
 # a helper known to the reference is not inlined
 emitted2 = dict(emitted); emitted2['h'] = ('def h {α : Type} [Flt α] (x_1 : α) : α :=\n  (pct x_1)', {'pct'})
 check('known helper not inlined', T.inline_new_helpers(emitted2, {'pct': 'x', 'h': 'y'}) == set())
+# a renamed function is emitted under the reference name; a renamed function whose body changed is not
+refr = {'Luv.cc': 'def Luv.cc {α : Type} [Flt α] (x_1 : α) : α :=\n  (x_1 * (Flt.lit 0x4010000000000000 4 1))', 'Luv.f': 'def Luv.f {α : Type} [Flt α] (x_1 : α) : α :=\n  (Luv.cc x_1)'}
+em = {'Luv.chroma': ('def Luv.chroma {α : Type} [Flt α] (x_1 : α) : α :=\n  ((Flt.lit 0x4010000000000000 4 1) * x_1)', set()),
+      'Luv.f': ('def Luv.f {α : Type} [Flt α] (x_1 : α) : α :=\n  (Luv.chroma x_1)', {'Luv.chroma'})}
+rep = {'translated': [{'name': 'Luv.chroma'}, {'name': 'Luv.f'}]}
+rn = T.rename_like_reference(em, refr, rep)
+check('rename detected', rn == {'Luv.cc': 'Luv.chroma'} and 'Luv.cc' in em and 'Luv.chroma' not in em and '(Luv.cc x_1)' in em['Luv.f'][0] and em['Luv.f'][1] == {'Luv.cc'} and rep['translated'][0]['name'] == 'Luv.cc')
+em2 = {'Luv.chroma': ('def Luv.chroma {α : Type} [Flt α] (x_1 : α) : α :=\n  ((Flt.lit 0x4014000000000000 5 1) * x_1)', set()),
+       'Luv.f': ('def Luv.f {α : Type} [Flt α] (x_1 : α) : α :=\n  (Luv.chroma x_1)', {'Luv.chroma'})}
+check('renamed and changed is not identified', T.rename_like_reference(em2, refr, {'translated': []}) == {} and 'Luv.chroma' in em2)
+em3 = dict(em2); em3['Luv.cc'] = (refr['Luv.cc'], set())
+check('no rename onto a name still in use', T.rename_like_reference(em3, refr, {'translated': []}) == {})
 print('normalisation self-test: ok')
